@@ -129,3 +129,22 @@ pub fn sync_config() -> impl Strategy<Value = Option<(usize, usize)>> {
         5 => (select(vec![2usize, 3, 4, 5, 6, 8, 16]), select(vec![1usize, 2, 3, 4, 8, 64])).prop_map(Some),
     ]
 }
+
+/// Noise operations (see `common::Noise`).
+pub fn noise() -> impl Strategy<Value = crate::common::Noise> {
+    use crate::common::Noise;
+    prop_oneof![
+        3 => Just(Noise::ImportDoc),
+        1 => Just(Noise::RemoveDoc),
+        4 => (0u8..3, 0u8..5, 0u8..4).prop_map(|(a, k, c)| Noise::Write(a, k, c)),
+        2 => any::<bool>().prop_map(Noise::SetPolicy),
+        2 => (any::<bool>(), 1u8..9).prop_map(|(b, p)| Noise::RegisterPeer(b, p)),
+        2 => Just(Noise::Flush),
+        1 => Just(Noise::ListNamespaces),
+        1 => Just(Noise::ContentHashes),
+        1 => Just(Noise::ReadSettings),
+        1 => Just(Noise::OpenClose),
+        1 => Just(Noise::RemoveWhileOpen),
+        1 => (0u8..4).prop_map(Noise::ImportAuthor),
+    ]
+}
